@@ -1363,6 +1363,41 @@ nni_dialer_timer_start(nni_dialer *d)
 	nni_mtx_unlock(&s->s_mx);
 }
 
+// The protocol's pipe_start must not run concurrently with (or after) the
+// reaper's pipe_close / pipe_stop for the same pipe.
+static bool
+pipe_start_begin(nni_sock *s, nni_pipe *p)
+{
+	bool ok;
+	nni_mtx_lock(&s->s_mx);
+	ok = !nni_pipe_is_closed(p);
+	if (ok) {
+		p->p_starting = true;
+	}
+	nni_mtx_unlock(&s->s_mx);
+	return (ok);
+}
+
+static void
+pipe_start_end(nni_sock *s, nni_pipe *p)
+{
+	nni_mtx_lock(&s->s_mx);
+	p->p_starting = false;
+	nni_cv_wake(&s->s_cv);
+	nni_mtx_unlock(&s->s_mx);
+}
+
+void
+nni_pipe_wait_started(nni_pipe *p)
+{
+	nni_sock *s = p->p_sock;
+	nni_mtx_lock(&s->s_mx);
+	while (p->p_starting) {
+		nni_cv_wait(&s->s_cv);
+	}
+	nni_mtx_unlock(&s->s_mx);
+}
+
 static void
 dialer_start_pipe(nni_dialer *d, nni_pipe *p)
 {
@@ -1380,7 +1415,7 @@ dialer_start_pipe(nni_dialer *d, nni_pipe *p)
 
 	nni_pipe_run_cb(p, NNG_PIPE_EV_ADD_PRE);
 
-	if (nni_pipe_is_closed(p)) {
+	if (!pipe_start_begin(s, p)) {
 #ifdef NNG_ENABLE_STATS
 		nni_stat_inc(&d->st_reject, 1);
 		nni_stat_inc(&s->st_rejects, 1);
@@ -1397,6 +1432,7 @@ dialer_start_pipe(nni_dialer *d, nni_pipe *p)
 	}
 
 	if (p->p_proto_ops.pipe_start(p->p_proto_data) != 0) {
+		pipe_start_end(s, p);
 #ifdef NNG_ENABLE_STATS
 		nni_stat_inc(&d->st_reject, 1);
 		nni_stat_inc(&s->st_rejects, 1);
@@ -1405,6 +1441,7 @@ dialer_start_pipe(nni_dialer *d, nni_pipe *p)
 		nni_pipe_rele(p);
 		return;
 	}
+	pipe_start_end(s, p);
 #ifdef NNG_ENABLE_STATS
 	nni_stat_set_id(&p->st_root, (int) p->p_id);
 	nni_stat_set_id(&p->st_id, (int) p->p_id);
@@ -1497,7 +1534,7 @@ listener_start_pipe(nni_listener *l, nni_pipe *p)
 
 	nni_pipe_run_cb(p, NNG_PIPE_EV_ADD_PRE);
 
-	if (nni_pipe_is_closed(p)) {
+	if (!pipe_start_begin(s, p)) {
 #ifdef NNG_ENABLE_STATS
 		nni_stat_inc(&l->st_reject, 1);
 		nni_stat_inc(&s->st_rejects, 1);
@@ -1506,6 +1543,7 @@ listener_start_pipe(nni_listener *l, nni_pipe *p)
 		return;
 	}
 	if (p->p_proto_ops.pipe_start(p->p_proto_data) != 0) {
+		pipe_start_end(s, p);
 #ifdef NNG_ENABLE_STATS
 		nni_stat_inc(&l->st_reject, 1);
 		nni_stat_inc(&s->st_rejects, 1);
@@ -1514,6 +1552,7 @@ listener_start_pipe(nni_listener *l, nni_pipe *p)
 		nni_pipe_rele(p);
 		return;
 	}
+	pipe_start_end(s, p);
 #ifdef NNG_ENABLE_STATS
 	nni_stat_set_id(&p->st_root, (int) p->p_id);
 	nni_stat_set_id(&p->st_id, (int) p->p_id);
